@@ -6,7 +6,7 @@ import numpy as np
 
 from .. import gen, core, probe
 from ..dense import dense, close, core_scale
-from ..drive import call, expect_refusal
+from ..drive import call, expect_refusal, refused_then_used
 from ..shard import Workload
 from ._common import arm_tt
 from . import ambient
@@ -110,6 +110,35 @@ def w_concatenate(ctx, rng, idx):
         expect_refusal('TT.concatenate', lambda: a.concatenate(bad))
 
 
+def w_refused(ctx, rng, idx):
+    """in-place variants called with operands that do not fit (rank / dimension mismatch, wrong matrix shape): the call is refused and the
+    caller goes on with the same object - which must still be the train it was (judged in the wrapper), and ordinary operations follow"""
+    d = int(rng.integers(1, 5))
+    a = gen.rand_tt(rng, gen.rand_dims(rng, d, 3), gen.rand_dims(rng, d, 2), gen.rand_ranks(rng, d, 3, boundary=(int(rng.integers(1, 3)), int(rng.integers(1, 3)))), gen.rand_cplx(rng))
+    k = int(rng.integers(0, 4))
+    ctx.describe({'op': 'refused in-place call, then ordinary use', 'kind': ['concatenate', 'concatenate (later core does not fit)', 'tensordot', 'rank_tensordot'][k], 'rows': a.row_dims, 'cols': a.col_dims, 'ranks': a.ranks})
+    if k == 0:
+        dd = int(rng.integers(1, 3))
+        bad = gen.rand_tt(rng, gen.rand_dims(rng, dd, 3), [1] * dd, gen.rand_ranks(rng, dd, 3, boundary=(a.ranks[-1] + 1, 1)))
+        other = bad if rng.random() < 0.5 else [c.copy() for c in bad.cores]
+        refused_then_used('TT.concatenate', a.concatenate, other, overwrite=True)
+    elif k == 1:
+        # a core list whose FIRST core fits and a later one does not
+        r = a.ranks[-1]
+        other = [gen.randn(rng, (r, 2, 1, 2), False), gen.randn(rng, (3, 2, 1, 1), False)]
+        refused_then_used('TT.concatenate', a.concatenate, other, overwrite=True)
+    elif k == 2:
+        b = gen.rand_tt(rng, [x + 1 for x in a.row_dims], list(a.col_dims), gen.rand_ranks(rng, d, 3))
+        refused_then_used('TT.tensordot', a.tensordot, b, d, mode=['last-first', 'first-last', 'last-last', 'first-first'][int(rng.integers(0, 4))], overwrite=True)
+    else:
+        M = gen.randn(rng, (a.ranks[-1] + 1, 2), False)
+        refused_then_used('TT.rank_tensordot', a.rank_tensordot, M, mode='last', overwrite=True)
+    # ordinary use afterwards
+    ok = gen.rand_tt(rng, [2], [1], [a.ranks[-1], 1])
+    call('TT.concatenate', a.concatenate, ok, prop=P, overwrite=bool(rng.integers(0, 2)), tags=['after_refused_call'])
+    call('TT.rank_transpose', a.rank_transpose, prop=P, overwrite=bool(rng.integers(0, 2)), tags=['after_refused_call'])
+
+
 def w_rank_transpose(ctx, rng, idx):
     d = int(rng.integers(1, 6))
     bnd = (int(rng.integers(1, 3)), int(rng.integers(1, 3))) if rng.random() < 0.4 else (1, 1)
@@ -153,6 +182,9 @@ def w_diag(ctx, rng, idx, param):
                 e = float(rng.uniform(10, 16))
                 cs[i], cs[j] = cs[i] * 10.0 ** e, cs[j] * 10.0 ** (-e)
             a = tt.TT(cs)
+    if rng.random() < 0.25:
+        # modes counted from the back (Python / NumPy index semantics: -1 is the last mode), mixed with ordinary positions
+        sub = [int(i) - d if rng.random() < 0.6 else int(i) for i in sub]
     ctx.describe({'op': 'diag', 'rows': rows, 'cols': cols, 'ranks': a.ranks, 'diag_list': sub})
     call('TT.diag', lambda: a.diag(sub), prop=P)
 
@@ -301,6 +333,7 @@ WORKLOADS = [
     Workload('tensordot', w_tensordot, None, None, enum=enum_tensordot),
     Workload('rank_tensordot', w_rank_tensordot, 150, 3000),
     Workload('concatenate', w_concatenate, 150, 3000),
+    Workload('refused', w_refused, 120, 2000),
     Workload('rank_transpose', w_rank_transpose, 120, 2000),
     Workload('diag', w_diag, None, None, enum=enum_diag),
     Workload('squeeze', w_squeeze, None, None, enum=enum_squeeze),
